@@ -11,7 +11,7 @@ def tokenize (s : String) : List String :=
 
 def parseBOp : String → Option BOp
   | "Add" => some .add | "Sub" => some .sub | "Mul" => some .mul | "Mod0" => some .mod0
-  | "Equal" => some .equal | "Less" => some .less | "And" => some .and | "Or" => some .or
+  | "Equal" => some .equal | "Less" => some .less | "And" => some .and | "Or" => some .or | "Xor" => some .xor
   | _ => none
 
 mutual
@@ -213,6 +213,8 @@ def cmdTgRender (args0 : List String) : String :=
     | some k => (maskGraph x (.inp 1) k).render | none => "bad-op"
   | ["nonzero", code, rank, i] => match parseNat? code, parseNat? rank, parseNat? i with
     | some c, some r, some i => (nonzeroGraph x c r i).render | _, _, _ => "bad-op"
+  | ["where", code] => match parseNat? code with                               -- condition = in0, x = in1, y = in2
+    | some c => (whereGraph x (.inp 1) (.inp 2) c).render | none => "bad-op"
   | ["intindex", code] => match parseNat? code with                            -- x = in0, index = in1
     | some c => (intIndexGraph x (.inp 1) c).render | none => "bad-op"
   | ["ndindex", rank] => match parseNat? rank with
